@@ -557,6 +557,12 @@ func (env *SpecEnv) evalIndex(n EIndex) specVal {
 			p := VPtr{Ref: v.Ref, Idx: Add(v.Idx, i), Root: v.Root, ArrLen: -1}
 			return specVal{env.e.loadPtr(env.st, p, env.heap), v.Root}
 		}
+		// a pointer to an array held in a struct field (&a.ID): element through the path
+		if at, ok := pointeeType(v).Underlying().(*types.Array); ok {
+			np := v
+			np.Path = append(append([]Step{}, v.Path...), Step{Index: env.Int(n.I)})
+			return specVal{env.e.loadPtr(env.st, np, env.heap), at.Elem()}
+		}
 	case Term:
 		if mt, ok := x.t.Underlying().(*types.Map); ok {
 			k := env.eval(n.I)
